@@ -129,6 +129,29 @@ def r082(an, rep):
             eq_keys = _mirror_keys(eqm, params[1])
             if not eq_keys:
                 raise AnalysisError(f"{eqm.qual}: cannot recognise the comparison idiom (expected k(self) ==/!= k(other) tests)")
+            # a value of another class is never equal: its hash is not a function of this class's key
+            other = params[1]
+            guard = None
+            for st in eqm.node.body:
+                if isinstance(st, ast.If) and isinstance(st.test, ast.UnaryOp) and isinstance(st.test.op, ast.Not) and isinstance(st.test.operand, ast.Call) \
+                        and isinstance(st.test.operand.func, ast.Name) and st.test.operand.func.id == "isinstance" and isinstance(st.test.operand.args[0], ast.Name) \
+                        and st.test.operand.args[0].id == other:
+                    guard = st
+                # `if other.__class__ is not self.__class__:` / `if type(other) is not type(self):`
+                if isinstance(st, ast.If) and isinstance(st.test, ast.Compare) and len(st.test.ops) == 1 and isinstance(st.test.ops[0], (ast.IsNot, ast.NotEq)):
+                    sides = [st.test.left, st.test.comparators[0]]
+                    if all((isinstance(x, ast.Attribute) and x.attr == "__class__") or (isinstance(x, ast.Call) and isinstance(x.func, ast.Name) and x.func.id == "type") for x in sides):
+                        guard = st
+            if guard is None:
+                raise AnalysisError(f"{eqm.qual}: no `if not isinstance({other}, {ci.name}): return False` guard recognised")
+            body = [b for b in guard.body if not (isinstance(b, ast.Expr) and isinstance(b.value, ast.Constant))]
+            strict = len(body) == 1 and isinstance(body[0], ast.Return) and (
+                (isinstance(body[0].value, ast.Constant) and body[0].value.value is False) or (isinstance(body[0].value, ast.Name) and body[0].value.id == "NotImplemented"))
+            rep.add("R08.2", f"{ci.qual}::__eq__ is False for values of other classes", strict, loc(ci.module, guard),
+                    f"`{norm_src(guard.test)}` -> `{norm_src(body[0])}`" if strict else
+                    f"for an object that is not a {ci.name}, __eq__ does more than `return False` / `return NotImplemented`: a {ci.name} can compare equal to a bare value "
+                    f"(e.g. {ci.name}(0) == 0) whose hash is not the hash of the {ci.name}, and through the generated __eq__ of the enclosing classes two values that encode "
+                    f"differently compare equal")
             fields_in_eq = _self_fields(eq_keys, ci)
             missing = [f.name for f in ci.fields if f.name not in fields_in_eq]
             rep.add("R08.2", f"{ci.qual}::__eq__ covers every field", not missing, w,
@@ -288,7 +311,9 @@ def r084(an, rep, rule="R08.4"):
         names, body, node = arm
         rets = returns_of(body)
         if len(rets) != 1 or rets[0].value is None:
-            raise AnalysisError(f"{cur.qual}: arm for {names} has no single return")
+            # several returns (a shortcut plus the general case): the shape rule does not apply, the witness partition below decides the arm
+            rep.add(rule, f"{cur.qual}::{leaf}", True, loc(cur.module, node), f"arm has {len(rets)} returns: decided by the witness partition only", nontrivial=False)
+            continue
         rv = rets[0].value
         w = loc(cur.module, rets[0])
         if leaf in ("bool", "int", "float", "complex"):
@@ -341,6 +366,7 @@ def r084(an, rep, rule="R08.4"):
             return r[1].node
         return None
     pe = PureEval(resolve, {"CodeData": type("CodeData", (), {}), "NotImplementedError": NotImplementedError})
+    pe.module_assigns = cur.module.assigns  # module-level constants of the key function's module (e.g. a tuple of types)
     nan, nnan = float("nan"), math.copysign(float("nan"), -1.0)
     W = [("nan", nan), ("-nan", nnan), ("0.0", 0.0), ("-0.0", -0.0), ("1.0", 1.0), ("-1.0", -1.0), ("1", 1), ("True", True), ("0", 0), ("False", False),
          ("inf", float("inf")), ("'a'", "a"), ("b'a'", b"a"), ("None", None), ("...", Ellipsis),
